@@ -165,4 +165,15 @@ def run(ctx):
     global CTX
     CTX = ctx
     names = sched.op_names(unsafe=True) + ["q.find", "q.str", "q.code", "q.is_eq", "q.forward"] * 3
+    from ..common import run_systematic
+    from ..gen.templates import single_step_cases
+
+    quick = ctx.tier == "quick"
+    real_ops = [n for n in names if not n.startswith("q.")]
+
+    def strip(cases):
+        for c in cases:
+            yield {"prog": c["prog"], "steps": c["steps"]}
+
+    run_systematic(ctx, strip(single_step_cases(real_ops, None, params=(0, 1) if quick else (0, 1, 2, 5, 7), sites=4 if quick else 8, extra=[0])), guarded(ctx, check_case), keep_one_in=6 if quick else 1, label="template-single-steps")
     run_cases(ctx, case_strategy(8 if ctx.tier == "quick" else 16, names), guarded(ctx, check_case), ctx.budget(640, 50000))
